@@ -1,5 +1,5 @@
 """Translator for C14: the formulas by which `BasisFunctionalData` computes in coefficient space
--> `lean/FDAModel/Generated/BasisFormulas.lean`.
+-> `lean/FDAModel/Generated/CoefSpaceFormulas.lean`.
 
 Read off `FDApy/representation/functional_data.py` (class `BasisFunctionalData`), syntactically, onto the combinators
 of `lean/FDAModel/Core/NpMat.lean` (`matmul`, `transpose`, `divc`, `meanAxis0/1`, `subRow`, `newaxis`, `diag`), with the
